@@ -79,6 +79,8 @@ class Scenario:
         self.notes = []
         self.cost = {}        # per-op event counters (C14/C15)
         self.subject = None
+        self.rawvals = {}
+        self._raw = None
         self.deferred = []
         self.interrupted = set()
         self.orphan_stack = []
@@ -489,6 +491,8 @@ class Scenario:
 
     def obs(self, op, val):
         self.trace.append(['ret', op['op'], val])
+        self.rawvals[len(self.trace) - 1] = self._raw if self._raw is not None else val
+        self._raw = None
 
     def set_handle(self, name, kind, value, obj):
         if name in self.handles:
@@ -901,6 +905,7 @@ class Scenario:
                     raise Violation('C14', 'allocated', '%s of a handle to an object without recorded adoptions performed %d heap allocation(s)' % (k, d[0]), self.model_values(None))
 
     def conc(self, v):
+        self._raw = v
         if is_sym(v):
             return 'sym'
         return v
